@@ -6,6 +6,7 @@ import (
 	"errors"
 	"fmt"
 	"io"
+	"math"
 	"regexp"
 	"strings"
 	"time"
@@ -301,6 +302,10 @@ func doParse(r io.Reader) (*parser, Errors) {
 	var errors Errors
 	p := newParser()
 	s := bufio.NewScanner(r)
+	// A Scanner gives up on the whole stream at the first line that exceeds its
+	// buffer (64 KiB by default), which silently dropped every record from such
+	// a line on. Let the buffer grow to the length of the longest line instead.
+	s.Buffer(nil, math.MaxInt)
 	foundA := false
 	leadingNoise := false
 	for lineno := 1; s.Scan(); lineno++ {
